@@ -29,7 +29,7 @@ pub fn generate(s: &mut Session, tier: &str, rng: &mut Rng) {
     let thorough = tier == "thorough";
     let mut transports = vec!["tcp", "ws"];
     if tls_available() {
-        transports.extend(["tls", "wss"]);
+        transports.extend(["tls", "wss", "quic"]);
     } else {
         s.count("skipped:tls-wss(no certificate)");
     }
@@ -41,7 +41,7 @@ pub fn generate(s: &mut Session, tier: &str, rng: &mut Rng) {
     for (ci, base) in picks.into_iter().enumerate() {
         for t in &transports {
             // quick tier: plain tcp plus one other transport per configuration, rotating so that each is used
-            let others = ["ws", "tls", "wss"];
+            let others = ["ws", "tls", "wss", "quic"];
             if !thorough && *t != "tcp" && *t != others[ci % others.len()] {
                 continue;
             }
@@ -54,6 +54,10 @@ pub fn generate(s: &mut Session, tier: &str, rng: &mut Rng) {
             let mut catalogue: Vec<&str> = tcp_faults.to_vec();
             if t.starts_with("tls") || *t == "wss" {
                 catalogue.extend(tls_faults);
+            }
+            if *t == "quic" {
+                // the tcp listener of mode tcp_and_quic gets the tcp faults; the quic endpoint its own
+                catalogue.extend(["quic-stall", "quic-junk"]);
             }
             if cfg.udp {
                 catalogue.extend(udp_faults);
@@ -89,6 +93,13 @@ pub fn generate(s: &mut Session, tier: &str, rng: &mut Rng) {
                     let r = s.run(&format!("e2e.udp {} sizes={} seed={}", w, "1,700,1400", rng.below(1 << 40)));
                     if r != "up=ok down=ok" {
                         s.oracle_fail(&format!("udp-canary:{}:{}", cfg.label(), seq.join("+")), &format!("after [{}] a well-behaved udp flow failed: `{}`", seq.join(", "), r));
+                    }
+                }
+                if cfg.udp && cfg.protocol == "shadowsocks" {
+                    // an established session whose datagram is replayed goes on being served
+                    let r = s.run(&format!("e2e.udpreplay {}", w));
+                    if r != "ok" && r != "n/a" {
+                        s.oracle_fail(&format!("udp-session-after-replay:{}:{}", cfg.label(), seq.join("+")), &format!("after a replayed datagram the session it belongs to was no longer served: `{}`", r));
                     }
                 }
                 let r = s.run(&format!("e2e.alive {}", w));
